@@ -38,7 +38,7 @@ func c02(args []string) error {
 	keywordNames := []string{"DATA", "end", "TREE", "gap", "CLUSTAL", "STOCKHOLM", "#x", "//", "123", "BEGIN", "matrix"}
 
 	configs := []string{"fasta", "phylip", "phylip-oneline", "phylip-noblock", "phylip-strict", "nexus", "clustal", "stockholm",
-		"fasta.gz", "phylip.xz", "auto", "multi-phylip"}
+		"fasta.gz", "phylip.xz", "auto", "multi-phylip", "multi-phylip.gz", "multi-phylip.xz"}
 
 	for i := 0; i < g.n; i++ {
 		nseq := 1 + r.Intn(5)
@@ -70,6 +70,19 @@ func c02(args []string) error {
 				seqs[k] = randSeq(r, L, func(r *rand.Rand) byte { return "ARNDCQEGHILKMFPSTWYVarndcqeghilkmfpstwyv-*?XBZ"[r.Intn(46)] })
 			} else {
 				seqs[k] = randSeq(r, L, func(r *rand.Rand) byte { return "ACGTACGTACGTacgtRYSWKMBDHVNryswkmbdhvn-*?"[r.Intn(41)] })
+			}
+		}
+		if r.Intn(12) == 0 {
+			// rows that spell words a lexer could take for something else (numbers, keywords)
+			words := []string{"NAN", "nan", "INF", "Inf", "INFINITY", "infinity", "NaN", "END", "GAP", "TREE", "DATA"}
+			wd := words[r.Intn(len(words))]
+			L = len(wd)
+			for k := range seqs {
+				seqs[k] = randSeq(r, L, func(r *rand.Rand) byte { return "ACGT"[r.Intn(4)] })
+			}
+			seqs[r.Intn(nseq)] = wd
+			if r.Intn(2) == 0 {
+				seqs[r.Intn(nseq)] = words[r.Intn(len(words))][:1] + strings.Repeat("A", L-1)
 			}
 		}
 		a, e := mkAlign(align.UNKNOWN, nl, seqs)
@@ -151,6 +164,54 @@ func c02(args []string) error {
 				want := map[string]int{"fasta": align.FORMAT_FASTA, "phylip": align.FORMAT_PHYLIP, "nexus": align.FORMAT_NEXUS, "clustal": align.FORMAT_CLUSTAL}[base]
 				if fmtDetected != want {
 					fmtDetected = -100 - fmtDetected
+				}
+			case "multi-phylip.gz", "multi-phylip.xz":
+				// a stream of alignments of very different sizes through the compressed writers, one
+				// WriteString per alignment: a, a wide copy of a (beyond every buffer size), a
+				wide := align.NewAlign(a.Alphabet())
+				rep := 1 + 9000/(L*nseq)
+				for q, nm := range nl {
+					wide.AddSequence(nm, strings.Repeat(seqs[q], rep), "")
+				}
+				var wa align.Alignment = wide
+				stream := []align.Alignment{a, wa, a}
+				if r.Intn(2) == 0 {
+					stream = []align.Alignment{wa, a, a, wa, a}
+				}
+				fn := filepath.Join(tmpdir, fmt.Sprintf("m%d.phy%s", i, cfg[len("multi-phylip"):]))
+				f, e := utils.OpenWriteFile(fn)
+				if e != nil {
+					return e
+				}
+				for _, x := range stream {
+					f.WriteString(phylip.WriteAlignment(x, false, false, false))
+				}
+				utils.CloseWriteFile(f, fn)
+				written = []byte(phylip.WriteAlignment(a, false, false, false))
+				fc, rd, e := utils.GetReader(fn)
+				if e != nil {
+					return e
+				}
+				defer fc.Close()
+				ch := align.AlignChannel{Achan: make(chan align.Alignment, 50)}
+				go phylip.NewParser(rd, false).ParseMultiple(&ch)
+				cnt := 0
+				for x := range ch.Achan {
+					if cnt < len(stream) {
+						n1, s1 := alignContent(stream[cnt])
+						n2, s2 := alignContent(x)
+						if fmt.Sprint(n2) != fmt.Sprint(n1) || fmt.Sprint(s2) != fmt.Sprint(s1) {
+							return fmt.Errorf("alignment %d of the compressed stream differs from the one written at that position", cnt)
+						}
+					}
+					al = x
+					cnt++
+				}
+				if ch.Err != nil {
+					return ch.Err
+				}
+				if cnt != len(stream) {
+					return fmt.Errorf("stream of %d alignments parsed as %d", len(stream), cnt)
 				}
 			case "multi-phylip":
 				k := 1 + r.Intn(3)
